@@ -32,8 +32,9 @@ MANIFEST = {
 
 # span 3 differs from span 0 by less than a millisecond at both ends (never "identical"); it only occurs in the
 # patterns of NEAR (the main enumeration is over spans 0-2)
-SPANS = [(1000000, 2000000), (2000000, 3500000), (4000000, 4000001), (1000400, 2000300)]
-NEAR = [(0, 3), (3, 0), (3, 3), (0, 3, 0), (0, 0, 3), (3, 0, 0), (3, 3, 0), (1, 0, 3), (0, 3, 1), (0, 3, 3, 0), (2, 3, 0, 1), (0, 3, 0, 3, 0)]
+# span 4 starts at time zero
+SPANS = [(1000000, 2000000), (2000000, 3500000), (4000000, 4000001), (1000400, 2000300), (0, 1000000)]
+NEAR = [(4,), (4, 4), (4, 0), (4, 4, 1), (4, 4, 4), (0, 4, 4), (4, 1, 4, 4), (0, 3), (3, 0), (3, 3), (0, 3, 0), (0, 0, 3), (3, 0, 0), (3, 3, 0), (1, 0, 3), (0, 3, 1), (0, 3, 3, 0), (2, 3, 0, 1), (0, 3, 0, 3, 0)]
 SKEWS = [0.5, 1, 1.001, 4]
 OFFSETS = ["-10s", "-first", "-1us", "0", "+1s"]
 
